@@ -778,7 +778,11 @@ func (f *fileStore) save() error {
 	return nil
 }
 
+// open reads the header under the exclusive lock: the page flusher of this
+// store is already running and reads (and rewrites) the same fields.
 func (f *fileStore) open() error {
+	f.lockExclusive()
+	defer f.unlockExclusive()
 	if err := binary.Read(f.file, binary.LittleEndian, &f.lastKey); err != nil {
 		return err
 	}
